@@ -197,7 +197,8 @@ def run(prop, tier, replay):
                 # directed: an update is refused because of a collision - then the cluster is deleted / the other one is / it is updated again
                 directed = [[A("a", "x"), A("b", "y"), A("a", "y"), D("a")], [A("a", "x"), A("b", "y"), A("a", "y"), D("b")], [A("a", "x"), A("b", "y"), A("a", "x", "y"), D("a")],
                             [A("a", "x"), A("b", "y"), A("a", "y"), A("a"), D("a")], [A("a", "x"), A("b"), A("b", "x"), D("b")], [A("a", "x"), A("b", "y"), A("a", "y"), A("b", "x"), D("a")],
-                            [A("a", "x"), A("b", "y"), A("a", "y"), D("a"), A("c", "x")], [A("a", "x", "y"), A("b"), A("b", "y"), A("a", "x"), D("b"), A("c", "y")]]
+                            [A("a", "x"), A("b", "y"), A("a", "y"), D("a"), A("c", "x")], [A("c", "y"), A("a", "x"), A("c", "x"), A("c"), D("a")],      # (the last one: the open finding StaleRequeue)
+                            [A("a", "x", "y"), A("b"), A("b", "y"), A("a", "x"), D("b"), A("c", "y")]]
                 for i, h in enumerate(directed + hc[:nco]):
                     sid = 300001 + i
                     scs.append(names_scenario(sid, h, rng, lag=False, collide=True))
@@ -218,13 +219,23 @@ def run(prop, tier, replay):
                     scs.append(reload_scenario(i + 1, h, rng))
                     kinds[str(i + 1)] = "reload"
                 # name histories with a lagging worker (requeues of superseded versions): judged by the differential only
-                gen2 = vlib.tlc("dataplane", "NamesGen", "NamesGen.cfg", workers=1, timeout=900, simulate="num=%d" % n, depth=40, tlc_seed=seed + 1, consts={"Tombstones": '"handled"'})
+                gen2 = vlib.tlc("dataplane", "NamesGen", "NamesGen.cfg", workers=1, timeout=900, simulate="num=%d" % n, depth=40, tlc_seed=seed + 1)
                 h2 = list({vlib.canon(h): h for h in gen2.json_prints("HIST")}.values())
                 rng.shuffle(h2)
-                for i, h in enumerate(h2[:n // 2]):
+                # directed: lagging histories on which the open finding StaleRequeue shows (found by a search over 600 of them: 5 do)
+                stale = [[{"k": "apply", "c": "c", "al": [], "tomb": False}, {"k": "apply", "c": "a", "al": ["x", "y"], "tomb": False}, {"k": "apply", "c": "a", "al": ["y"], "tomb": False}, {"k": "apply", "c": "c", "al": ["x"], "tomb": False}, {"k": "delete", "c": "c", "al": [], "tomb": False}, {"k": "apply", "c": "a", "al": ["x", "y"], "tomb": False}, {"k": "apply", "c": "c", "al": [], "tomb": False}], [{"k": "apply", "c": "a", "al": ["y"], "tomb": False}, {"k": "apply", "c": "b", "al": ["x"], "tomb": False}, {"k": "apply", "c": "c", "al": [], "tomb": False}, {"k": "delete", "c": "a", "al": [], "tomb": False}, {"k": "apply", "c": "b", "al": [], "tomb": False}, {"k": "apply", "c": "a", "al": ["x"], "tomb": False}, {"k": "apply", "c": "a", "al": ["y"], "tomb": False}], [{"k": "apply", "c": "c", "al": ["y"], "tomb": False}, {"k": "apply", "c": "a", "al": ["x"], "tomb": False}, {"k": "delete", "c": "c", "al": [], "tomb": False}, {"k": "apply", "c": "c", "al": ["y"], "tomb": False}, {"k": "apply", "c": "a", "al": [], "tomb": False}, {"k": "apply", "c": "c", "al": ["x"], "tomb": False}, {"k": "apply", "c": "c", "al": [], "tomb": False}], [{"k": "apply", "c": "a", "al": [], "tomb": False}, {"k": "apply", "c": "b", "al": ["x"], "tomb": False}, {"k": "apply", "c": "b", "al": ["x", "y"], "tomb": False}, {"k": "apply", "c": "b", "al": ["x"], "tomb": False}, {"k": "apply", "c": "c", "al": [], "tomb": False}, {"k": "apply", "c": "a", "al": ["y"], "tomb": False}, {"k": "delete", "c": "a", "al": [], "tomb": False}], [{"k": "apply", "c": "b", "al": ["y"], "tomb": False}, {"k": "apply", "c": "b", "al": [], "tomb": False}, {"k": "apply", "c": "c", "al": ["x", "y"], "tomb": False}, {"k": "apply", "c": "c", "al": ["y"], "tomb": False}, {"k": "apply", "c": "b", "al": ["x"], "tomb": False}, {"k": "delete", "c": "b", "al": [], "tomb": False}, {"k": "apply", "c": "a", "al": [], "tomb": False}]]
+                for i, h in enumerate(stale + h2[:n // 2]):
                     sid = 100001 + i
                     scs.append(names_scenario(sid, h, rng, lag=True))
                     kinds[str(sid)] = "lag"
+                # deletions delivered as tombstones (the informer's watch is cut while the object is deleted), settled histories
+                gen3 = vlib.tlc("dataplane", "NamesGen", "NamesGen.cfg", workers=1, timeout=900, simulate="num=%d" % n, depth=40, tlc_seed=seed + 2, consts={"Tombstones": '"handled"'})
+                h3 = [h for h in {vlib.canon(h): h for h in gen3.json_prints("HIST")}.values() if any(e.get("tomb") for e in h)]
+                rng.shuffle(h3)
+                for i, h in enumerate(h3[:n // 6]):
+                    sid = 200001 + i
+                    scs.append(names_scenario(sid, h, rng, lag=False))
+                    kinds[str(sid)] = "tomb"
         binp = os.path.join(wd, "ctrl.test")
         vlib.go_test_build("./ctrl", binp)
         traces, crashed = vlib.run_test_driver(binp, scs, wd, timeout=1500)
